@@ -44,6 +44,10 @@ let parse_op (r : mdesc list) (s : string) : op =
   | ["I"; nm; rv; sel] when String.length nm = 1 && String.length rv = 1 ->
       OpImpl (name_of_char nm.[0], rev_of_char rv.[0], parse_sel sel)
   | ["C"] -> OpCompile
+  | ["O"; n] -> let n = int_of_string n in
+      OpSetOpt { of_expl = n land 1 <> 0; of_impf = n land 2 <> 0; of_refi = n land 4 <> 0; of_priv = n land 16 <> 0 }
+  | ["U"; n] -> let n = int_of_string n in
+      OpUnsetOpt { of_expl = n land 1 <> 0; of_impf = n land 2 <> 0; of_refi = n land 4 <> 0; of_priv = n land 16 <> 0 }
   | _ -> raise Bad
 
 let b2i b = if b then 1 else 0
@@ -55,12 +59,15 @@ let show_comp = function
           let i = int_of_n i in
           if i = 0 then "x_" ^ feat_str f else Printf.sprintf "y%d_%s" (i - 1) (feat_str f)) l) ^ "]"
 
+let no_r = ref false
+
 let show_mod (s : state) (m : modl) : string =
   let flags = b2i m.m_latest + 2 * b2i m.m_lsearch + 4 * b2i m.m_imprev + 8 * b2i m.m_limpclb in
   let feats = String.concat "," (List.map (fun f -> feat_str f.f_name ^ (if f.f_on then "+" else "-")) m.m_feats) in
   let r = match m.m_comp with
     | None -> '0'
     | Some _ -> if kmem (mkey m) (compiled_in s) then '+' else '=' in
+  let r = if !no_r then '.' else r in
   Printf.sprintf "%s%d%c%x%c{%s}c=%sr%c" (char_of_name m.m_name) (int_of_n m.m_rev) (if m.m_impl then 'I' else 'i')
     flags (if m.m_tc then 'T' else 't') feats (show_comp m.m_comp) r
 
@@ -69,10 +76,11 @@ let show_q (l : modl option list) : string =
 
 let show_state (res : result) (s : state) : string =
   let r = match res with ROk -> "ok" | RErr -> "E" | RNoMod -> "nomod" | RFuel -> "MODEL-FUEL" | RAbort -> "ABORT" in
-  Printf.sprintf "%s;cc%c;%s;L:%s;M:%s;hash=ok" r (if s.evs = [] then '=' else '+')
+  Printf.sprintf "%s;cc%c;%s;L:%s;M:%s;hash=ok;O:%d" r (if s.evs = [] then '=' else '+')
     (String.concat " " (List.map (show_mod s) (user_mods s)))
     (show_q (List.map (fun n -> get_latest n s.mods) names))
     (show_q (List.map (fun n -> get_implemented n s.mods) names))
+    (b2i s.explicit + 2 * b2i s.xopts.x_impf + 4 * b2i s.xopts.x_refi + 16 * b2i s.xopts.x_priv)
 
 let internal_names = [| "ietf-yang-metadata"; "yang"; "ietf-inet-types"; "ietf-yang-types"; "ietf-yang-schema-mount";
                         "ietf-yang-structure-ext" |]
@@ -97,6 +105,7 @@ let run (f : string list) : string =
              match (try Some (parse_op r o) with Bad | Failure _ -> None) with
              | None -> "?op"
              | Some o -> let (s', res) = step r !s o in
+                         no_r := (match o with OpSetOpt _ | OpUnsetOpt _ -> true | _ -> false);
                          s := s'; if res = RAbort then abort := true; show_state res s') ops) in
          (* builds with assertions abort: the whole case has no output *)
          if !abort then "ABORT" else out
@@ -117,7 +126,8 @@ let run (f : string list) : string =
                  let (s', res) = step r !s o in
                  let e = (obs s' = obs !s) in
                  let q' = quiescent s' in
-                 let compiled_now = (expl <> "1") || o = OpCompile in
+                 let compiled_now = (not (!s).explicit) || o = OpCompile
+                                    || (match o with OpSetOpt _ | OpUnsetOpt _ -> true | _ -> false) in
                  let flag =
                    if q && res = RErr && not e then " THM-VIOLATED"
                    else if q && res = ROk && compiled_now && not q' then " NOT-PRESERVED" else "" in
